@@ -512,9 +512,12 @@ def _new_shape(repo: Repo, new: FuncInfo) -> tuple[Any, ast.AST | None]:
     for nd in ast.walk(new.node):
         if isinstance(nd, ast.Call) and isinstance(
                 nd.func, ast.Attribute) and nd.func.attr == "__new__" \
-                and len(nd.args) >= 2:
+                and (len(nd.args) >= 2 or any(
+                    k_.arg == "shape" for k_ in nd.keywords)):
+            shp = nd.args[1] if len(nd.args) >= 2 else next(
+                k_.value for k_ in nd.keywords if k_.arg == "shape")
             try:
-                v = ev.expr(Env(), inline_locals(new.node, nd.args[1]))
+                v = ev.expr(Env(), inline_locals(new.node, shp))
             except Unsupported:
                 return None, nd
             return (v if isinstance(v, tuple) else None), nd
